@@ -22,8 +22,18 @@ first process's record is compared with the model `c11_model` (Expand.v's
 `stage` + the derived submission order / status rows / script texts) under the
 identity AND the reversed set-iteration oracle.
 
+A share of the cases is staged with hash_ws=True and/or use_tmp=True (case keys
+"hashws"/"usetmp").  The Gallina model has hash_ws off, so hash_ws cases are
+compared ACROSS PROCESSES ONLY (monitor `C11_ok`, no model agreement); use_tmp
+alone changes no observable, those cases keep the model comparison.
+
+The hash seeds are chosen by a pre-computation in sub-processes: among the
+candidates, seeds that iterate the two-element sets of the "tie" parameter names
+({"temp","TEMP"}, names equal up to case / underscores / digit suffix) in BOTH
+orders are always included.
+
 A difference between two processes is a concrete violation (replay = the
-specification and the two hash seeds).
+specification, its flags, the hash seeds and the root variants).
 
 Sub-process entry:  python -m harness.props.c11 --worker IN.json OUT.json
 """
@@ -41,13 +51,21 @@ from harness.props import c08
 
 PID = "C11"
 PY = "/venv/bin/python"
-SEEDS_QUICK = ["0", "1", "7"]
+SEEDS_QUICK = ["0", "1", "7"]             # fall-back only: see pick_seeds
 SEEDS_THOROUGH = ["0", "1", "7", "12345"]
+SEED_CANDIDATES = [str(i) for i in range(40)] + ["12345"]
+# parameter names that are distinct but equal under a plausible normalisation
+# (case, leading/trailing underscore, digit suffix); the first pair is the one the
+# chosen hash seeds MUST order both ways
+TIE_PAIRS = [["temp", "TEMP"], ["dt", "DT"], ["size", "SIZE"], ["Temp", "temp"], ["x1", "X1"],
+             ["N_", "N"], ["_N", "N"], ["A1", "A2"]]
 # output roots differ in depth and spelling; the last two components are the
 # same everywhere because write_status prints the last two components of a
 # workspace path (a component that sanitises to nothing would otherwise show
-# the root's own directory name: C10's K1, not a C11 matter)
-VARIANTS = ["p0", "q1/deeper.dir-1", "Z_9/a/b/c", "w-3/x.y"]
+# the root's own directory name: C10's K1, not a C11 matter).  The LAST process
+# re-uses the FIRST process's hash seed under another root, so that a
+# difference caused by the root alone is recognisable as such.
+VARIANTS = ["p0", "q1/deeper.dir-1", "Z_9/a/b/c", "w-3/x.y", "rr/d"]
 
 HEADER = c08.HEADER + """From MWF Require Import Expand.OrderFree.
 Definition X_ := mkX.
@@ -60,10 +78,33 @@ Definition L_ (l : list str) : str := join [10%N] l.
 # ----------------------------------------------------------------------------
 # worker (runs in the fresh interpreter)
 # ----------------------------------------------------------------------------
+def stage_flags(case, root):
+    """c08.stage_real with the case's hash_ws / use_tmp flags (dry run)."""
+    c08.quiet()
+    os.makedirs(os.path.dirname(root), exist_ok=True)
+    try:
+        study = c08.build_study(case, root)
+    except Exception as e:
+        return {"ok": False, "err": 1, "exc": type(e).__name__, "msg": str(e)[:200]}, None, None
+    try:
+        study.setup_workspace()
+        study.configure_study(throttle=0, submission_attempts=1, restart_limit=case["rlimit"],
+                              use_tmp=bool(case.get("usetmp")), hash_ws=bool(case.get("hashws")),
+                              dry_run=True)
+        study.setup_environment()
+        _, dag = study.stage()
+    except Exception as e:
+        return {"ok": False, "err": 2, "exc": type(e).__name__, "msg": str(e)[:200]}, study, None
+    try:
+        return c08.observe_dag(case, study, dag, root), study, dag
+    except Exception as e:
+        return {"ok": False, "err": 3, "exc": type(e).__name__, "msg": str(e)[:200]}, study, dag
+
+
 def expand_once(case, root):
     """Stage + dry run under `root`; returns the serialisation (root replaced)."""
     ser = {"obs": None, "polls": [], "status": [], "scripts": [], "exc": ""}
-    o, study, dag = c08.stage_real(case, root, dry=True)
+    o, study, dag = stage_flags(case, root)
     ser["obs"] = o
     if o.get("ok") and dag is not None:
         from maestrowf.abstracts.interfaces.scriptadapter import ScriptAdapter
@@ -104,7 +145,7 @@ def expand_once(case, root):
                 if rp:
                     with open(rp) as f:
                         rtext = f.read()
-                ser["scripts"].append([name, text, rtext])
+                ser["scripts"].append([name, os.path.basename(sp), text, rtext])
         except Exception as e:            # mutated trees may raise anything
             ser["exc"] = "EXC:%s" % type(e).__name__
         finally:
@@ -122,9 +163,12 @@ def worker_main(inp, outp):
     except Exception:
         pass
     res = []
+    import tempfile
     for i, case in enumerate(d["cases"]):
         top = os.path.join(d["base"], "%d" % i)
         root = os.path.join(top, d["variant"], "st", "out")
+        os.makedirs(os.path.join(top, "tmp"), exist_ok=True)
+        tempfile.tempdir = os.path.join(top, "tmp")        # use_tmp: mkdtemp below the case's scratch
         try:
             res.append(expand_once(case, root))
         except Exception as e:
@@ -138,8 +182,59 @@ def worker_main(inp, outp):
 # ----------------------------------------------------------------------------
 # driver side: fan out over processes
 # ----------------------------------------------------------------------------
-def run_processes(cases, seeds, tag, chunk=None):
-    """Returns per case the list of serialisations, one per seed (same order)."""
+PROBE = ("import json,sys\nout=[]\nfor a,b in json.loads(sys.argv[1]):\n"
+         "    s=set(); s.add(a); s.add(b); out.append(list(set()|s)[0]==a)\nprint(json.dumps(out))")
+
+
+def pick_seeds(n):
+    """n PYTHONHASHSEED values; pre-computed in sub-processes so that the
+    two-element sets of the tie names are iterated in BOTH orders among them
+    ({"temp","TEMP"} always; as many other pairs as possible)."""
+    def probe(seed):
+        try:
+            e = dict(os.environ, PYTHONHASHSEED=seed)
+            p = subprocess.run([PY, "-c", PROBE, json.dumps(TIE_PAIRS)], env=e, stdout=subprocess.PIPE,
+                               stderr=subprocess.DEVNULL, timeout=120, text=True)
+            return json.loads(p.stdout)
+        except Exception:
+            return None
+    with ThreadPoolExecutor(max_workers=common.NCPU) as ex:
+        orders = dict(zip(SEED_CANDIDATES, ex.map(probe, SEED_CANDIDATES)))
+    orders = {s: o for s, o in orders.items() if o and len(o) == len(TIE_PAIRS)}
+
+    def both(chosen):
+        return [k for k in range(len(TIE_PAIRS)) if len({orders[s][k] for s in chosen}) == 2]
+    chosen = []
+    pref = SEEDS_THOROUGH + SEED_CANDIDATES
+    first = [s for s in pref if s in orders]
+    if not first:
+        return (SEEDS_THOROUGH if n >= 4 else SEEDS_QUICK), {"probe": "failed"}
+    chosen.append(first[0])
+    # second seed: must flip the first pair
+    flip = [s for s in first if orders[s][0] != orders[chosen[0]][0]]
+    if flip:
+        chosen.append(max(flip, key=lambda s: (len(both(chosen + [s])), -first.index(s))))
+    while len(chosen) < n:
+        rest = [s for s in first if s not in chosen]
+        if not rest:
+            break
+        chosen.append(max(rest, key=lambda s: (len(both(chosen + [s])), -first.index(s))))
+    info = {"tie_pairs_iterated_both_ways": ["/".join(TIE_PAIRS[k]) for k in both(chosen)],
+            "first_element_by_seed": {s: [TIE_PAIRS[k][0 if orders[s][k] else 1] for k in range(len(TIE_PAIRS))]
+                                      for s in chosen}}
+    return chosen, info
+
+
+def processes_for(seeds):
+    """(hash seed, root variant) per process: one per seed + the first seed again under another root"""
+    ss = list(seeds) + [seeds[0]]
+    return [(s, VARIANTS[k % len(VARIANTS)]) for k, s in enumerate(ss)]
+
+
+def run_processes(cases, procs, tag, chunk=None):
+    """procs = [(hash seed, root variant)]; returns per case the list of
+    serialisations, one per process (same order)."""
+    seeds = [s for s, _ in procs]
     work = os.path.join(common.WORK, "%s-%d" % (tag, os.getpid()))    # concurrent checks do not collide
     shutil.rmtree(work, ignore_errors=True)
     os.makedirs(work)
@@ -155,7 +250,7 @@ def run_processes(cases, seeds, tag, chunk=None):
             outp = os.path.join(work, name + ".out.json")
             with open(inp, "w") as f:
                 json.dump({"cases": cases[j:j + chunk], "base": os.path.join(work, name),
-                           "variant": VARIANTS[k % len(VARIANTS)]}, f)
+                           "variant": procs[k][1]}, f)
             jobs.append((k, seed, j, inp, outp))
     env = dict(os.environ)
     env["PYTHONPATH"] = "%s:%s" % (common.REPO, common.VERIF)
@@ -203,7 +298,8 @@ def g_text(s):
 
 def g_xobs(x):
     rows = common.g_list(["R_ %s %s %s %s" % tuple(g_str(c) for c in r) for r in x["status"]])
-    scripts = common.g_list(["C_ %s %s %s" % (g_str(a), g_text(b), g_text(c)) for a, b, c in x["scripts"]])
+    scripts = common.g_list(["C_ %s %s %s %s" % (g_str(a), g_str(f), g_text(b), g_text(c))
+                             for a, f, b, c in x["scripts"]])
     polls = common.g_list([g_strs(p) for p in x["polls"]])
     return "(X_ %s %s %s %s %s)" % (c08.g_obs(x["obs"]), polls, rows, scripts, g_str(x["exc"]))
 
@@ -305,63 +401,133 @@ def first_diff(a, b, path=""):
     return "%s: %s vs %s" % (path, json.dumps(a)[:300], json.dumps(b)[:300])
 
 
-def cross_diff(sers, seeds):
-    """(seed_a, seed_b, where) of the first pair of processes that disagree"""
+def cross_diff(sers, procs):
+    """(k, where) for the first process k that disagrees with process 0"""
     for k in range(1, len(sers)):
         if sers[k] != sers[0]:
-            return seeds[0], seeds[k], first_diff(sers[0], sers[k])
+            return k, first_diff(sers[0], sers[k])
     return None
+
+
+def gen_ties(rng):
+    """two parameters whose names are equal under a plausible normalisation
+    (case / underscores / digit suffix), used TOGETHER in one step and inherited
+    by its dependants: any ordering of the used-parameter set that does not
+    separate them leaves their order to set iteration."""
+    a, b = rng.choice(TIE_PAIRS[:5] if rng.random() < 0.7 else TIE_PAIRS)
+    if rng.random() < 0.5:
+        a, b = b, a
+    keys = [a, b] + ([rng.choice(c08.KEYS_FREE)] if rng.random() < 0.4 else [])
+    rng.shuffle(keys)
+    nrows = rng.randint(2, 3)
+    params = []
+    for k in keys:
+        vals = c08.gen_values(rng, nrows)
+        params.append({"key": k, "name": None, "values": vals,
+                       "label": rng.choice(["%s.%%%%" % k, "%s.%%%%" % k, None, k + "%%"])})
+    nsteps = rng.randint(2, 4)
+    names = rng.sample(c08.STEP_NAMES, nsteps)
+    steps = []
+    for k in range(nsteps):
+        if k == 0:
+            use = [a, b]
+        else:
+            use = [x for x in keys if rng.random() < 0.4]
+        toks = " ".join(rng.choice(["$(%s)", "$(%s.label)"]) % u for u in use)
+        run = {"cmd": "echo %s %s" % (rng.choice(["run", "x=1", "data"]), toks)}
+        if k > 0:
+            par = rng.sample(range(k), rng.randint(1, min(2, k)))
+            deps = [names[j] + (rng.choice(["_*", "*"]) if rng.random() < 0.35 else "") for j in par]
+            run["depends"] = deps
+            if rng.random() < 0.4:
+                j = par[0]
+                run["cmd"] += " $(%s.workspace)/o" % names[j]
+        if rng.random() < 0.3:
+            run["restart"] = "again %s" % toks
+        steps.append({"name": names[k], "description": "ties", "run": run})
+    return {"rlimit": rng.choice([0, 1]), "params": params, "steps": steps, "stream": "ties"}
+
+
+def case_key(case):
+    return json.dumps({k: case.get(k) for k in ("rlimit", "params", "steps", "hashws", "usetmp")}, sort_keys=True)
 
 
 def generate(rng, tier):
     quick = tier != "thorough"
-    n_tiny, n_valid, n_prefix, n_exotic, n_wide = (12, 24, 8, 12, 36) if quick else (120, 300, 80, 120, 420)
+    n_tiny, n_valid, n_prefix, n_exotic, n_wide, n_ties = \
+        (8, 20, 6, 10, 30, 22) if quick else (100, 280, 70, 110, 380, 160)
     cases = load_corpus()
     tiny = c08.tiny_cases()
     rng.shuffle(tiny)
     cases += tiny[:n_tiny]
-    cases += [c08.gen_case(rng, "valid") for _ in range(n_valid)]
-    cases += [c08.gen_case(rng, "prefix") for _ in range(n_prefix)]
-    cases += [c08.gen_case(rng, "exotic") for _ in range(n_exotic)]
-    cases += [gen_wide(rng) for _ in range(n_wide)]
-    return cases
+    gen = [c08.gen_case(rng, "valid") for _ in range(n_valid)]
+    gen += [c08.gen_case(rng, "prefix") for _ in range(n_prefix)]
+    gen += [c08.gen_case(rng, "exotic") for _ in range(n_exotic)]
+    gen += [gen_wide(rng) for _ in range(n_wide)]
+    gen += [gen_ties(rng) for _ in range(n_ties)]
+    for c in gen:                      # the flags: --hashws / --usetmp
+        r = rng.random()
+        if r < 0.25:
+            c["hashws"] = True
+        if rng.random() < 0.15:
+            c["usetmp"] = True
+    return cases + gen
 
 
-def evaluate(ck, cases, seeds, tag="C11"):
-    """-> (sers, verdicts, detail, problems, errs)"""
-    sers, problems = run_processes(cases, seeds, "run-" + tag.lower())
-    verdicts = ["ok"] * len(cases)
-    detail = {}
-    lits, idx = [], []
-    for i, (case, ss) in enumerate(zip(cases, sers)):
-        if any(s is None for s in ss):
-            verdicts[i] = "lost"
-            continue
-        idx.append(i)
-        lits.append(g_case(case, ss))
+def _coq(ck, tag, fn, lits):
     ty = "spec * list xobs"
     # small shards: a 400-case shard of wide specifications needs > 3 GB and minutes in coqc
     shard = 32 if len(lits) <= 200 else 100
-    bad, errs = common.coq_failing(tag, HEADER, ty, "c11_case", lits, shard=shard)
+    bad, errs = common.coq_failing(tag, HEADER, ty, fn, lits, shard=shard)
     if errs and all(not e[1].strip() or "timed out" in e[1] for e in errs):
         # coqc died without saying anything (killed under memory pressure / timed out on a
         # loaded machine): an infrastructure failure, not a verdict -- once more, smaller
         ck.notes["coqc_retry"] = [os.path.basename(e[0]) for e in errs]
-        bad, errs = common.coq_failing(tag, HEADER, ty, "c11_case", lits, shard=max(8, shard // 2))
+        bad, errs = common.coq_failing(tag, HEADER, ty, fn, lits, shard=max(8, shard // 2))
+    return bad, errs
+
+
+def evaluate(ck, cases, procs, tag="C11"):
+    """-> (sers, verdicts, detail, problems, errs)"""
+    sers, problems = run_processes(cases, procs, "run-" + tag.lower())
+    verdicts = ["ok"] * len(cases)
+    detail = {}
+    lits, idx, hlits, hidx = [], [], [], []
+    for i, (case, ss) in enumerate(zip(cases, sers)):
+        if any(s is None for s in ss):
+            verdicts[i] = "lost"
+        elif case.get("hashws"):       # the model has hash_ws off: processes against each other only
+            hidx.append(i)
+            hlits.append(g_case(case, ss))
+        else:
+            idx.append(i)
+            lits.append(g_case(case, ss))
+    ty = "spec * list xobs"
+    bad, errs = _coq(ck, tag, "c11_case", lits) if lits else ([], [])
     if bad:
         sub = [lits[j] for j in bad]
-        bad_mon, e1 = common.coq_failing(tag + "_mon", HEADER, ty, "c11_monitor", sub)
-        bad_agr, e2 = common.coq_failing(tag + "_agree", HEADER, ty, "c11_agree", sub)
+        bad_mon, e1 = common.coq_failing(tag + "_mon", HEADER, ty, "c11_monitor", sub, shard=100)
+        bad_agr, e2 = common.coq_failing(tag + "_agree", HEADER, ty, "c11_agree", sub, shard=100)
         errs = errs + e1 + e2
         for jj, j in enumerate(bad):
             i = idx[j]
             verdicts[i] = "violation" if jj in bad_mon else "mismatch"
             detail[i] = {"monitor_false": jj in bad_mon, "model_differs": jj in bad_agr}
+    if hlits:
+        hbad, e3 = _coq(ck, tag + "_h", "c11_monitor", hlits)
+        errs = errs + e3
+        for j in hbad:
+            verdicts[hidx[j]] = "violation"
+            detail[hidx[j]] = {"monitor_false": True, "hash_ws": True}
     # the Python-side comparison of the complete serialisations must tell the same story
-    for i in idx:
-        d = cross_diff(sers[i], seeds)
+    for i in idx + hidx:
+        d = cross_diff(sers[i], procs)
         if d is not None:
-            detail.setdefault(i, {})["diff"] = {"hashseed_a": d[0], "hashseed_b": d[1], "where": d[2]}
+            k, where = d
+            detail.setdefault(i, {})["diff"] = {
+                "process_a": {"hashseed": procs[0][0], "root_variant": procs[0][1]},
+                "process_b": {"hashseed": procs[k][0], "root_variant": procs[k][1]},
+                "same_hashseed": procs[0][0] == procs[k][0], "where": where}
             verdicts[i] = "violation"
     return sers, verdicts, detail, problems, errs
 
@@ -373,25 +539,37 @@ def model_text(case):
         return repr(e)
 
 
-def violation_record(case, seeds, det):
-    d = (det or {}).get("diff") or {}
-    return {"case": clean(case), "hashseeds": list(seeds), "hashseed_a": d.get("hashseed_a"),
-            "hashseed_b": d.get("hashseed_b"), "where": d.get("where")}
+def violation_what(det):
+    d = (det or {}).get("diff")
+    if not d:
+        return "two expansions of the same specification differ: C11_ok is false"
+    a, b = d["process_a"], d["process_b"]
+    return ("two expansions of the same specification differ (PYTHONHASHSEED %s root .../%s/st/out vs "
+            "PYTHONHASHSEED %s root .../%s/st/out): %s"
+            % (a["hashseed"], a["root_variant"], b["hashseed"], b["root_variant"], d["where"]))
+
+
+def violation_record(case, procs, det):
+    return {"case": clean(case), "processes": [list(p) for p in procs], "diff": (det or {}).get("diff")}
 
 
 def run(ck):
     ck.build_proofs()
     rng = random.Random(ck.seed)
-    seeds = SEEDS_QUICK if ck.tier != "thorough" else SEEDS_THOROUGH
+    seeds, seed_info = pick_seeds(3 if ck.tier != "thorough" else 4)
+    procs = processes_for(seeds)
     cases = generate(rng, ck.tier)
-    sers, verdicts, detail, problems, errs = evaluate(ck, cases, seeds)
-    hist = {"streams": {}, "nodes": {}, "max_parents": {}, "max_record_params": {}, "errors": {}, "polls": {}}
+    sers, verdicts, detail, problems, errs = evaluate(ck, cases, procs)
+    hist = {"streams": {}, "flags": {}, "nodes": {}, "max_parents": {}, "max_record_params": {}, "errors": {},
+            "polls": {}}
     for i, (case, ss) in enumerate(zip(cases, sers)):
         x = ss[0] or {"obs": {"ok": False, "err": 9}, "polls": []}
         o = x["obs"]
         mp = max_parents(x)
-        ck.count(c08.case_key(case), nontrivial=bool(o.get("ok")) and (mp >= 2 or max_params(x) >= 2))
+        ck.count(case_key(case), nontrivial=bool(o.get("ok")) and (mp >= 2 or max_params(x) >= 2))
         hist["streams"][case["stream"]] = hist["streams"].get(case["stream"], 0) + 1
+        fl = "hashws=%d,usetmp=%d" % (bool(case.get("hashws")), bool(case.get("usetmp")))
+        hist["flags"][fl] = hist["flags"].get(fl, 0) + 1
         if o.get("ok"):
             b = min(len(o["nodes"]) - 1, 16)
             hist["nodes"][b] = hist["nodes"].get(b, 0) + 1
@@ -402,15 +580,12 @@ def run(ck):
         else:
             k = "%s:%s" % (o.get("err"), o.get("exc"))
             hist["errors"][k] = hist["errors"].get(k, 0) + 1
-        if case["stream"] == "wide" and o.get("ok"):
+        if case["stream"] in ("wide", "ties") and o.get("ok"):
             ck.sample({"case": clean(case), "impl_first_process": {"polls": x["polls"], "status": x["status"][:6],
-                                                                   "names": [n["name"] for n in o["nodes"]]}}, limit=2)
+                                                                   "names": [n["name"] for n in o["nodes"]]}}, limit=3)
         v = verdicts[i]
         if v == "violation":
-            d = detail.get(i, {}).get("diff", {})
-            ck.violation("two expansions of the same specification differ (PYTHONHASHSEED %s vs %s): %s"
-                         % (d.get("hashseed_a"), d.get("hashseed_b"), d.get("where", "C11_ok is false")),
-                         violation_record(case, seeds, detail.get(i)))
+            ck.violation(violation_what(detail.get(i)), violation_record(case, procs, detail.get(i)))
         elif v == "mismatch":
             ck.mismatch("model and implementation disagree: %s" % json.dumps(detail.get(i)), clean(case),
                         model_text(case) + "\nIMPL: " + json.dumps(ss[0])[:6000])
@@ -420,16 +595,21 @@ def run(ck):
         ck.mismatch("worker process failed", None, p)
     for e in errs:
         ck.mismatch("coqc failed on cases file", None, e[1])
-    ck.notes["processes_per_specification"] = len(seeds)
-    ck.notes["hashseeds"] = seeds
-    ck.notes["root_variants"] = VARIANTS[:len(seeds)]
+    ck.notes["processes"] = [{"hashseed": s, "root_variant": v} for s, v in procs]
+    ck.notes["hashseed_selection"] = seed_info
     ck.cov["rule"] = ("corpus + a sample of C08's exhaustive tiny scope + C08's seeded streams valid/prefix/exotic + the "
                       "'wide' stream (4-7 steps, 3-5 parameters x 2-4 rows, steps with 2-4 parents mixing ordinary and "
-                      "funnel dependencies, workspace references to ancestors); every specification is staged and dry-run "
-                      "(local adapter, scripts and status.csv written) in %d fresh interpreters with PYTHONHASHSEED %s and "
-                      "different output roots; distinct = distinct (rlimit, params, steps); non-trivial = staged and some "
-                      "instance has >= 2 parents or >= 2 record parameters" % (len(seeds), "/".join(seeds)))
-    ck.cov["traces_validated_against_impl"] = len(cases) * len(seeds)
+                      "funnel dependencies, workspace references to ancestors) + the 'ties' stream (two parameters whose "
+                      "names are equal up to case / underscores / digit suffix, e.g. temp/TEMP, used together in one step); "
+                      "25%% of the generated cases are staged with hash_ws=True and 15%% with use_tmp=True; every "
+                      "specification is staged and dry-run (local adapter, scripts and status.csv written) in %d fresh "
+                      "interpreters = PYTHONHASHSEED %s (chosen by a sub-process pre-computation so that the 2-element sets "
+                      "of tie names are iterated in both orders) under different output roots + the first seed again under "
+                      "one more root; hash_ws cases are compared across processes only (C11_ok; the Gallina model has "
+                      "hash_ws off), all others also with the model; distinct = distinct (rlimit, params, steps, flags); "
+                      "non-trivial = staged and some instance has >= 2 parents or >= 2 record parameters"
+                      % (len(procs), "/".join(seeds)))
+    ck.cov["traces_validated_against_impl"] = len(cases) * len(procs)
     ck.cov["input_distribution"] = hist
     return ck.finish(search=lambda: search(ck))
 
@@ -437,16 +617,24 @@ def run(ck):
 def search(ck):
     """Proof or correspondence broke: look for two processes that disagree, bigger budget, no Coq."""
     rng = random.Random(ck.seed + 104729)
-    cases = [gen_wide(rng) for _ in range(300)] + [c08.gen_case(rng, "valid") for _ in range(200)]
-    sers, problems = run_processes(cases, SEEDS_THOROUGH, "run-c11-search")
+    cases = [gen_wide(rng) for _ in range(250)] + [c08.gen_case(rng, "valid") for _ in range(150)] \
+        + [gen_ties(rng) for _ in range(150)]
+    for k, c in enumerate(cases):
+        if k % 3 == 0:
+            c["hashws"] = True
+    seeds, _ = pick_seeds(4)
+    procs = processes_for(seeds)
+    sers, problems = run_processes(cases, procs, "run-c11-search")
     for case, ss in zip(cases, sers):
         if any(s is None for s in ss):
             continue
-        d = cross_diff(ss, SEEDS_THOROUGH)
+        d = cross_diff(ss, procs)
         if d is not None:
-            det = {"diff": {"hashseed_a": d[0], "hashseed_b": d[1], "where": d[2]}}
-            return ("two expansions of the same specification differ (PYTHONHASHSEED %s vs %s): %s" % d,
-                    violation_record(case, SEEDS_THOROUGH, det))
+            k, where = d
+            det = {"diff": {"process_a": {"hashseed": procs[0][0], "root_variant": procs[0][1]},
+                            "process_b": {"hashseed": procs[k][0], "root_variant": procs[k][1]},
+                            "same_hashseed": procs[0][0] == procs[k][0], "where": where}}
+            return violation_what(det), violation_record(case, procs, det)
     return None
 
 
@@ -454,11 +642,15 @@ def replay(ck, path):
     d = json.load(open(path))
     rec = d.get("case", d)
     case = rec.get("case", rec)
-    seeds = [str(s) for s in (rec.get("hashseeds") or SEEDS_THOROUGH)]
-    sers, verdicts, detail, problems, errs = evaluate(ck, [case], seeds, tag="C11_replay")
-    for s, x in zip(seeds, sers[0]):
-        print("PYTHONHASHSEED=%s:" % s, json.dumps(x)[:3000])
-    print("model:", model_text(case))
+    if rec.get("processes"):
+        procs = [(str(s), str(v)) for s, v in rec["processes"]]
+    else:
+        procs = processes_for(pick_seeds(4)[0])
+    sers, verdicts, detail, problems, errs = evaluate(ck, [case], procs, tag="C11_replay")
+    for (s, v), x in zip(procs, sers[0]):
+        print("PYTHONHASHSEED=%s root=.../%s/st/out:" % (s, v), json.dumps(x)[:3000])
+    if not case.get("hashws"):
+        print("model:", model_text(case))
     print("verdict:", verdicts[0], detail.get(0), problems[:1], errs[:1])
     return 0 if verdicts[0] == "ok" and not problems and not errs else 1
 
